@@ -108,7 +108,8 @@ def run(item, ctx, tier, seed):
     shapes = [tuple(s) for s in b["shapes"]]
     for ci_, cfg in enumerate(ot.CFGS):
         for ep, en in [tuple(e) for e in b["easy"]]:
-            s = Scores(pos[::-1], neg[::-1], nb_easy_pos=ep, nb_easy_neg=en, score_class=cfg[0], equal_class=cfg[1])
+            pin_arr, nin_arr = np.array(pos[::-1], dtype=float), np.array(neg[::-1], dtype=float)
+            s = Scores(pin_arr, nin_arr, nb_easy_pos=ep, nb_easy_neg=en, score_class=cfg[0], equal_class=cfg[1])
             base = {"pos": pos, "neg": neg, "cfg": list(cfg), "easy": [ep, en]}
             npop = {"tpr": len(pos), "fnr": len(pos), "tnr": len(neg), "fpr": len(neg), "topr": len(pos) + len(neg),
                     "tonr": len(pos) + len(neg)}
@@ -208,6 +209,10 @@ def run(item, ctx, tier, seed):
                     ctx.tick()
                     if ok4:
                         check_elementwise(ctx, case, r + "-after-in-place-shift", v4, buf, lambda t, r=r: getattr(s, r)(t))
+            # the score arrays the caller passed to the constructor are the caller's: unchanged after everything above
+            if pin_arr.tolist() != [float(v) for v in pos[::-1]] or nin_arr.tolist() != [float(v) for v in neg[::-1]]:
+                ctx.fail("caller-array-unchanged", dict(base, argument="constructor score arrays"),
+                         observed=[pin_arr, nin_arr], expected=[pos[::-1], neg[::-1]])
             ctx.outcome((tuple(map(tuple, blocks)), cfg, ep, en))
     ctx.sample({"kind": "shapes", "pos": pos, "neg": neg, "shapes": b["shapes"], "layouts": b["layouts"]})
     return None
